@@ -13,7 +13,10 @@ LEVEL_TEXT = ("TLC checks the goroutine-level models of the packet pipeline, the
               "cancel is issued, under the log lock, by the seam wrapper handling the k-th event - for every k of small runs and sampled "
               "k of large runs with full buffers and slow consumers - for the packet engine and for startScanEngine around the real "
               "application engine; each trace must be a behaviour of the seam-level specifications, the scan call must return and the "
-              "error stream must close within 10 s, and every output write must be a complete line.")
+              "error stream must close within 10 s, and every output write must be a complete line. The chunk loop with Ctrl-C (ScanRun; "
+              "the as-found variant that starts further passes after the cancellation must fail) is model checked and the runs of the real "
+              "binary that receive SIGINT (mid-scan, in the exit delay, in a 31-pass scan, on a busy wire, with application probes in flight) "
+              "are validated against it / against the exit bound; no scenario of the socket-level tier may crash.")
 NOTE = ("Trusted: TLC; the seam wrappers; the bounded-time clauses use 10 s (typical < 50 ms). Goroutines leaked after a cancel (sender parked "
         "on its unconditional error send) are allowed by the specification, as the statement only asks the scan call to return.")
 TECHNIQUE = "TLA+ model checking (TLC) with Cancel action + cancel-point replay on the real code validated against the spec"
